@@ -327,7 +327,10 @@ def omit_prefix(vrs, prefix):
 
 
 def _omit_prefix(s, prefix):
-    if s.startswith(prefix):
+    # only hidden variables have been mangled by `add_prefix`
+    # (to `prefix + '_...'`); visible identifiers that happen to
+    # start with `prefix` must remain unchanged
+    if s.startswith(prefix + '_'):
         return s.replace(prefix, '', 1)
     return s
 
